@@ -1,6 +1,6 @@
 CONSTANTS
-  Base = 240
-  MaxHeight = 244
+  Base = 280
+  MaxHeight = 284
   EnvVars <- McEnv
   QueryKinds <- McQueries
   BlockChoices <- McBlocks
